@@ -391,7 +391,26 @@ class Exec:
             return r
         c, m = s.p.method(cls, e.attr, 'getter')
         if m is not None: return s.call(st, m, [o], owner=c)
+        c, m = s.p.method(cls, e.attr)
+        if m is not None: return s.method_value(st, o, c, m)
         raise Unsupported(f'attribute {cls}.{e.attr}')
+    def method_value(s, st, o, owner, m):
+        """a bound method used as a value (passed as a callback): only for one-argument methods whose contract has an empty write set. The value is a snapshot
+        function of the current heap: an array a with  forall t. requires(o, t) ==> ensures(o, t, a[t]).  Sound as long as the callee that receives it does not write
+        what the contract reads (its frame is a proved obligation; recorded as engine assumption A-callback)."""
+        q = s.qual(owner, m.name); ct = s.spec.contracts.get(q)
+        params = [a.arg for a in m.args.args]
+        if ct is None or ct.modifies != [] or len(params) != 2: raise Unsupported(f'method value {q}: needs a contract with modifies() and one parameter')
+        pty = parse_ann(m.args.args[1].annotation, dict(s.p.tv, Self=owner)); rty = parse_ann(m.returns, dict(s.p.tv, Self=owner))
+        a = fresh('fn_' + m.name, IA); t = Int(f't!fn{next(_fresh)}')
+        st2 = st.fork(); st2.env = {params[0]: o, params[1]: SV(t, pty), 'result': SV(Select(a, t), rty)}; st2.old = st.heap.copy(); st2.old_env = dict(st2.env)
+        old_mode, s.specmode = getattr(s, 'specmode', False), True
+        try:
+            pre = And([s.spec_bool(st2, r) for r in ct.requires]) if ct.requires else BoolVal(True)
+            post = And([s.spec_bool(st2, r) for r in ct.ensures]) if ct.ensures else BoolVal(True)
+        finally: s.specmode = old_mode
+        st.defs.append(ForAll([t], Implies(pre, post), patterns=[Select(a, t)]))
+        sv = SV(a, IARR); sv.ety = rty; return sv
     def norm_index(s, st, n, i, what, lineno):
         if getattr(s, 'specmode', False): return i
         if is_int_value(i) and i.as_long() < 0:
@@ -534,6 +553,11 @@ class Exec:
                 a_, b_ = s.ev(st, e.args[0]), s.ev(st, e.args[1])
                 if a_.ty == INT and b_.ty == INT: return SV(If(a_.t <= b_.t, a_.t, b_.t) if n == 'min' else If(a_.t >= b_.t, a_.t, b_.t), INT)
                 raise Unsupported('min/max of non-ints')
+            if n == 'reversed' and len(e.args) == 1:
+                v = s.ev(st, e.args[0])
+                if v.ty.kind != 'list': raise Unsupported('reversed() of a non-sequence')
+                n_ = s.llen(st.heap, v); a_ = s.lelem(st.heap, v)
+                return s.new_list(st, v.ty, n_, lambda k: Select(a_, n_ - 1 - k))
             if n == 'tuple' and len(e.args) == 1:
                 v = s.ev(st, e.args[0])
                 if v.ty.kind == 'list': return v          # a tuple built from a (fresh) sequence: same abstract sequence
@@ -855,7 +879,12 @@ class Exec:
             self_cls = args[0].ty.arg          # `Self` is the (static) class of the receiver
         rty = parse_ann(fdef.returns, dict(s.p.tv, Self=self_cls)) if fdef.returns is not None else NONE
         if c is not None and q != s.cur:
-            return s.call_contract(st, q, c, env, rty)
+            r_ = s.call_contract(st, q, c, env, rty)
+            for names_ in ((getattr(curc, 'after_call', {}) or {}).get(q, []) if curc is not None else []):      # ghost names for the result (and the arguments) of a nested call
+                st.env[names_[0]] = r_
+                for nm_, pn_ in zip(names_[1:], [a_.arg for a_ in fdef.args.args]):
+                    if pn_ in env and isinstance(env[pn_], SV): st.env[nm_] = env[pn_]
+            return r_
         if q == s.cur and c is not None: return s.call_contract(st, q, c, env, rty)   # recursion via contract
         # inline
         if s.depth > 6: raise Unsupported(f'inline depth at {q}')
@@ -1418,6 +1447,7 @@ class Spec:
                         elif kind == 'invariant': c.invariants.setdefault(call.args[0].value, []).extend(call.args[1:])
                         elif kind == 'ghost': c.ghost_exit.append(call.args)
                         elif kind == 'after_assign': c.after_assign.setdefault(call.args[0].value, []).append(call.args[1:])
+                        elif kind == 'after_call': c.after_call = getattr(c, 'after_call', {}); c.after_call.setdefault(call.args[0].value, []).append([a_.value for a_ in call.args[1:]])
                         elif kind == 'before_call': c.before_call.setdefault(call.args[0].value, []).append(call.args[1:])
                         elif kind == 'functional':
                             c.functional = call.args[0].value
@@ -1478,6 +1508,9 @@ def generate(ex, owner, name, kind=None):
             if i == 0 and owner and 'staticmethod' not in decs: st.defs.append(v > 0)
             if ty.kind == 'list': st.defs.append(v > 0); sv = ex.list_sv(st, v, ty)
         st.env[a.arg] = sv
+    for lst_ in (getattr(c, 'after_call', {}) or {}).values():
+        for names_ in lst_:
+            for nm_ in names_: st.env[nm_] = SV(Const('g0_' + nm_, IA), IARR) if nm_.startswith('A_') else SV(IntVal(0), NONE)
     # touch every field so that the entry heap has symbols (needed for old())
     for cl in p.classes:
         for f, ty in p.classes[cl].fields.items(): ex.hget(st.heap, (cl, f), ty)
@@ -1503,6 +1536,10 @@ def generate(ex, owner, name, kind=None):
     except Exception: decl_rty = None
     for o, v in rets:
         if is_gen: v = o.env['$out']; v = ex.list_sv(o, v.t, v.ty)
+        elif decl_rty is not None and decl_rty.kind == 'list' and isinstance(v, SV) and v.ty.kind == 'tuple':
+            elts_ = list(v.t); arr_ = K(I, IntVal(0))
+            for j_, x_ in enumerate(elts_): arr_ = Store(arr_, j_, x_.t)
+            v = ex.new_list(o, decl_rty, IntVal(len(elts_)), (lambda a_: lambda k: Select(a_, k))(arr_))
         elif decl_rty is not None and decl_rty.kind == 'list' and isinstance(v, SV) and v.ty.kind == 'list' and v.ty != decl_rty:
             ex.set_list(o, v.t, ex.llen(o.heap, v), ex.lelem(o.heap, v), decl_rty); v = ex.list_sv(o, v.t, decl_rty)
         o2 = o.fork(); o2.env = dict(o.env, result=v); o2.old = st.old; o2.old_env = st.old_env
